@@ -10,6 +10,9 @@
   start with `--- ` or `+++ ` (such a line — the removal of `-- x`, the addition of `++ y` — was taken for a file header and
   the first hunk was silently dropped).  That hypothesis is gone: the first body line only has to start with space, `+`
   or `-`.  `first_hunk_line_like_header` states the fixed case on its own.
+  EXTENDED with D86 (an unchanged empty line written as an EMPTY line may be the first line of the first hunk, if the range
+  has a count above 0 on both sides): `empty_line_after_range_starts_hunk`, `empty_line_after_range_without_room` (one step
+  of the scan, positive / negative), `first_hunk_line_empty` (the whole header).  The older theorems are unchanged.
   `hterm` (the first body line is terminated) is only used to read that line with `getLine_cons`; the flags it would set
   are cleared by `parseHeader` anyway.
 -/
@@ -191,6 +194,98 @@ example : ∃ info par',
     show stripPath [98] 0 = [98] by simp [stripPath, stripLoop, SLASH],
     show inferredOp { defaultHunk with old := { start := 1, count := 2 }, new := { start := 1, count := 1 } } = .change by decide]
 
+/-- NEW (D86: `diff -u --suppress-blank-empty` writes an unchanged empty line as an EMPTY line, not as a line of one blank; the
+    hunk body parser accepted that, the header scan did not when it was the first line of the first hunk): one step of the
+    scan — after a line that looked like a unified range line with a count above 0 on BOTH sides, an empty line is the first
+    line of the first hunk: the scan stops there, the first hunk is found, the format is unified, and the two names / time
+    stamps are swapped back as for any other first body line. -/
+theorem empty_line_after_range_starts_hunk (st : HState) (strip : Int)
+    (hf : st.patch.format = .unknown ∨ st.patch.format = .unified) (hl : st.thisLooks = .unified)
+    (ho : 0 < st.hunk.old.count) (hn : 0 < st.hunk.new.count) :
+    ∃ st', headerStep st [] strip = .ok (st', false) ∧ st'.foundFirstHunk = true ∧ st'.patch.format = .unified ∧
+      st'.patch.oldPath = st.patch.newPath ∧ st'.patch.newPath = st.patch.oldPath ∧ st'.hunk = st.hunk ∧ st'.ltfh = st.ltfh :=
+  ⟨_, Header.headerStep_firstBody st [] strip ⟨hf, hl, Or.inr ⟨rfl, ho, hn⟩⟩, rfl, rfl, rfl, rfl, rfl, rfl⟩
+
+/-- … and its negative twin: if the range leaves no room for an unchanged line (`@@ -1,29 +0,0 @@`: a count of 0 on one
+    side) an empty line after it is NOT the start of a hunk — it is skipped like any blank line, in or outside a git section:
+    the scan goes on, nothing is found, the patch is as it was and the "looks like a range" marker is gone. -/
+theorem empty_line_after_range_without_room (st : HState) (strip : Int)
+    (hc : ¬ (0 < st.hunk.old.count ∧ 0 < st.hunk.new.count)) :
+    ∃ st', headerStep st [] strip = .ok (st', true) ∧ st'.foundFirstHunk = st.foundFirstHunk ∧ st'.patch = st.patch ∧
+      st'.thisLooks = .unknown ∧ st'.hunk = st.hunk ∧ st'.ltfh = st.ltfh :=
+  ⟨_, Header.headerStep_empty_skip st strip (fun h => hc h.2), rfl, rfl, rfl, rfl, rfl⟩
+
+/-- NEW (D86), the whole header: `--- old` / `+++ new` / a range line with room for an unchanged line / an EMPTY line.  The
+    header is read back like that of any other unified diff — format unified, names, time stamps, first hunk on line 3 — and
+    the stream is left at the range line with clean flags, so that the body parser gets the whole hunk (which starts with an
+    unchanged empty line).  Before the change the scan skipped the empty line, took the line after it for filler or for a
+    header and the first hunk was lost. -/
+theorem first_hunk_line_empty (old new oldt newt : Bytes) (h : Hunk) (first : Line) (more : List Line) (strip : Int) (lineNo : Nat)
+    (hold : plainName old) (hnew : plainName new) (hot : oldt ≠ []) (hnt : newt ≠ [])
+    (hr : 0 ≤ h.old.start ∧ h.old.start ≤ i64Max / 4 ∧ 0 ≤ h.old.count ∧ h.old.count ≤ i64Max / 4 ∧
+          0 ≤ h.new.start ∧ h.new.start ≤ i64Max / 4 ∧ 0 ≤ h.new.count ∧ h.new.count ≤ i64Max / 4)
+    (hfirst : first.content = []) (hroom : 0 < h.old.count ∧ 0 < h.new.count)
+    (hterm : first.newline ≠ .none) :
+    ∃ info par',
+      parseHeader { s := { rest := unifiedHeader old new oldt newt ++ ⟨rangeLineText h, .lf⟩ :: first :: more }, lineNo := lineNo } {} strip
+        = .ok (true,
+               { format := .unified, operation := inferredOp h,
+                 oldPath := if old = devNull then old else stripPath old strip,
+                 newPath := if new = devNull then new else stripPath new strip,
+                 oldTime := oldt, newTime := newt },
+               info, par') ∧
+      info.format = .unified ∧ info.linesTillFirstHunk = 3 ∧
+      par'.s.rest = ⟨rangeLineText h, .lf⟩ :: first :: more ∧ par'.s.eof = false ∧ par'.s.bad = false := by
+  have hp := Header.parseHeader_unified_e strip
+    { s := { rest := unifiedHeader old new oldt newt ++ ⟨rangeLineText h, .lf⟩ :: first :: more }, lineNo := lineNo } {} []
+    old new oldt newt h first more (by simp) (by simp) hold hnew hot hnt hr (Or.inr ⟨hfirst, hroom⟩) hterm (Or.inl rfl)
+    rfl rfl rfl rfl
+  exact ⟨_, _, hp, rfl, rfl, rfl, rfl, rfl⟩
+
+-- the situation of the fix, evaluated: "--- f\n+++ f\n@@ -1,3 +1,3 @@\n\n-b\n+B\n c\n" — one hunk of four lines, the first
+-- one an unchanged empty line
+#guard match parseHeader { s := { rest := [⟨str "--- f", .lf⟩, ⟨str "+++ f", .lf⟩, ⟨str "@@ -1,3 +1,3 @@", .lf⟩, ⟨[], .lf⟩,
+                                           ⟨str "-b", .lf⟩, ⟨str "+B", .lf⟩, ⟨str " c", .lf⟩] } } {} 0 with
+  | .ok (body, p, info, par') =>
+      body && p.format == .unified && p.oldPath == str "f" && p.newPath == str "f" && p.operation == .change &&
+      info.format == .unified && info.linesTillFirstHunk == 3 && par'.s.rest.length == 5 && !par'.s.eof && !par'.s.bad &&
+      (match parseBody par' p with
+       | .ok (p', par'') =>
+           par''.s.rest.length == 0 &&
+           (p'.hunks.map fun hk => (hk.old.start, hk.old.count, hk.new.start, hk.new.count)) == [(1, 3, 1, 3)] &&
+           (p'.hunks.map fun hk => hk.lines.map fun pl => (pl.op, pl.line.content)) ==
+             [[(32, []), (45, str "b"), (43, str "B"), (32, str "c")]]
+       | _ => false)
+  | _ => false
+
+-- the negative twin, evaluated: after `@@ -1,29 +0,0 @@` an empty line starts no hunk (nothing found: format unknown) …
+#guard match parseHeader { s := { rest := [⟨str "--- f", .lf⟩, ⟨str "+++ f", .lf⟩, ⟨str "@@ -1,29 +0,0 @@", .lf⟩, ⟨[], .lf⟩] } } {} 0 with
+  | .ok (_, p, info, _) => p.format == .unknown && info.format == .unknown
+  | _ => false
+-- … while after `@@ -1,3 +1,3 @@` it does, also as the last line of the text
+#guard match parseHeader { s := { rest := [⟨str "--- f", .lf⟩, ⟨str "+++ f", .lf⟩, ⟨str "@@ -1,3 +1,3 @@", .lf⟩, ⟨[], .lf⟩] } } {} 0 with
+  | .ok (_, p, info, _) => p.format == .unified && info.format == .unified && info.linesTillFirstHunk == 3
+  | _ => false
+
+-- kernel-checked instances of the two step theorems (the state after `@@ -1,3 +1,3 @@` / after `@@ -1,29 +0,0 @@`)
+example : ∃ st', headerStep { par := { s := { rest := [] } }, patch := {}, thisLooks := .unified,
+                              hunk := { defaultHunk with old := { start := 1, count := 3 }, new := { start := 1, count := 3 } } } [] 0
+                   = .ok (st', false) ∧ st'.foundFirstHunk = true ∧ st'.patch.format = .unified := by
+  obtain ⟨st', h, h1, h2, _⟩ := empty_line_after_range_starts_hunk
+    { par := { s := { rest := [] } }, patch := {}, thisLooks := .unified,
+      hunk := { defaultHunk with old := { start := 1, count := 3 }, new := { start := 1, count := 3 } } } 0
+    (Or.inl rfl) rfl (by decide) (by decide)
+  exact ⟨st', h, h1, h2⟩
+
+example : ∃ st', headerStep { par := { s := { rest := [] } }, patch := {}, thisLooks := .unified,
+                              hunk := { defaultHunk with old := { start := 1, count := 29 }, new := { start := 0, count := 0 } } } [] 0
+                   = .ok (st', true) ∧ st'.foundFirstHunk = false ∧ st'.patch.format = .unknown := by
+  obtain ⟨st', h, h1, h2, _⟩ := empty_line_after_range_without_room
+    { par := { s := { rest := [] } }, patch := {}, thisLooks := .unified,
+      hunk := { defaultHunk with old := { start := 1, count := 29 }, new := { start := 0, count := 0 } } } 0
+    (by decide)
+  exact ⟨st', h, h1, by rw [h2]⟩
+
 /-- NEW (the `diff --git` line always belongs to the header): a section whose first line is a `diff --git` line — if the header
     scan succeeds at all (the name on the line may be malformed: then it throws), the result is a git patch, the first-hunk line
     is at least the second line and the parser is left strictly after the `diff --git` line, whatever follows it (nothing,
@@ -363,6 +458,9 @@ end PatchModel.C11
 #print axioms PatchModel.C11.unified_header_after_filler
 #print axioms PatchModel.C11.unified_header_after_filler_forced
 #print axioms PatchModel.C11.first_hunk_line_like_header
+#print axioms PatchModel.C11.empty_line_after_range_starts_hunk
+#print axioms PatchModel.C11.empty_line_after_range_without_room
+#print axioms PatchModel.C11.first_hunk_line_empty
 #print axioms PatchModel.C11.git_first_line_consumed
 #print axioms PatchModel.C11.prereq_not_stripped
 #print axioms PatchModel.C11.prereq_word
